@@ -473,7 +473,7 @@ var spEdits = []string{"dupOperationID", "dropPathParam", "renamePathParam", "ex
 	"arrayNoItemsSchema", "nestedItemsNoItems", "requiredUndefined", "requiredViaAdditional", "dupInheritedProperty",
 	"circularAncestry", "overlapPaths", "badPatternParam", "badPatternHeader", "badPatternSchema", "badPatternItems",
 	"unresolvedSchemaRef", "unresolvedParamRef", "noPaths", "emptyPaths", "bodyViaSharedParam", "noResponses", "refWithSiblingDefault",
-	"refWithExtension", "pathParamNoPlaceholder", "requiredViaAdditionalSchema", "sameBodyNameTwice", "tupleDefaults", "diamondAncestry", "diamondSharedProperty", "cycleBelowStart", "oddPropertyNames", "aliasCycle", "sameResponseCodeTwice"}
+	"refWithExtension", "pathParamNoPlaceholder", "requiredViaAdditionalSchema", "sameBodyNameTwice", "tupleDefaults", "diamondAncestry", "diamondSharedProperty", "cycleBelowStart", "oddPropertyNames", "aliasCycle", "sameResponseCodeTwice", "valuesBesideRefs"}
 
 func (g *spgen) applyEdit(doc M, kind string) bool {
 	ops := docOps(doc)
@@ -938,6 +938,28 @@ func (g *spgen) applyEdit(doc M, kind string) bool {
 		}
 		defs["Tup"] = M{"type": "array", "items": L{M{"type": "integer", "default": 1}, M{"type": "string", "default": 7},
 			M{"type": "object", "properties": M{"q": M{"type": "boolean", "default": "bad"}}}}}
+		return true
+	case "valuesBesideRefs":
+		// breaks no rule: a definition that carries a default or an example next to members that are references
+		// (C12: building the validator for the value must not expand those references in the caller's document)
+		defs, _ := doc["definitions"].(M)
+		if defs == nil {
+			defs = M{}
+			doc["definitions"] = defs
+		}
+		defs["RefTarget"] = M{"type": "object", "properties": M{"n": M{"type": "integer"}}}
+		ref := func() M { return M{"$ref": "#/definitions/RefTarget"} }
+		key := []string{"default", "example"}[g.rng.Intn(2)]
+		switch g.rng.Intn(4) {
+		case 0:
+			defs["WithValues"] = M{"allOf": L{ref(), M{"type": "object"}}, key: M{"n": 1}}
+		case 1:
+			defs["WithValues"] = M{"type": "object", "properties": M{"p": ref()}, key: M{"p": M{"n": 1}}}
+		case 2:
+			defs["WithValues"] = M{"type": "array", "items": ref(), key: L{M{"n": 2}}}
+		default:
+			defs["WithValues"] = M{"type": "object", "additionalProperties": ref(), key: M{"k": M{"n": 3}}}
+		}
 		return true
 	case "noPaths":
 		delete(doc, "paths")
